@@ -35,6 +35,7 @@ class Explorer:
         self.counters = dict(counters)
         self.handler_stack: List[Tuple[Optional[str], str]] = []
         self.n = 0
+        self._depth = 0
 
     # ------------------------------------------------------------------ helpers
     def _calls(self, node) -> List[ast.Call]:
@@ -118,6 +119,44 @@ class Explorer:
         for c in self._calls(node):
             k = self.classify(c)
             if k is None:
+                # a helper the rules do not know: its body is part of this function
+                from .helpers import unknown_callee
+                t = unknown_callee(self.prog, self.fn, c) if self._depth < 4 else None
+                if t is not None:
+                    new = []
+                    for p in outs:
+                        if p.kind != "normal":
+                            new.append(p)
+                            continue
+                        saved = self.fn
+                        # callee environment: parameters bound from evaluable arguments (counters are passed by value)
+                        a = t.node.args
+                        pnames = [x.arg for x in a.posonlyargs + a.args]
+                        if t.cls is not None and t.kind in ("method", "classmethod") and isinstance(c.func, ast.Attribute):
+                            pnames = pnames[1:]
+                        cenv = {}
+                        for pn, an in zip(pnames, c.args):
+                            v = self.value(an, p.env)
+                            if v is not None:
+                                cenv[pn] = v
+                        for kw in c.keywords:
+                            v = self.value(kw.value, p.env) if kw.arg else None
+                            if v is not None:
+                                cenv[kw.arg] = v
+                        pos = a.posonlyargs + a.args
+                        for pa, d in list(zip(pos[len(pos) - len(a.defaults):], a.defaults)):
+                            if pa.arg not in cenv and isinstance(d, ast.Constant) and isinstance(d.value, int):
+                                cenv[pa.arg] = d.value
+                        self.fn = t
+                        self._depth += 1
+                        try:
+                            sub = self.run(t.node.body, cenv, p.trace)
+                        finally:
+                            self.fn = saved
+                            self._depth -= 1
+                        for q in sub:
+                            new.append(Path("normal", None, p.env, q.trace) if q.kind in ("normal", "return") else Path(q.kind, q.exc, p.env, q.trace, q.node))
+                    outs = new
                 continue
             new = []
             for p in outs:
